@@ -221,6 +221,134 @@ func init() {
 		Assumptions: []string{"pseudonym form as in C13; user field names are single non-empty components outside the operator vocabulary"},
 		Trusted:     commonTrusted,
 	}
+	propChecks["C18"] = &PropCheck{
+		ID: "C18", Title: "redact accepts exactly the well-defined jobs; rejections have no side effects",
+		Jobs: func(e *Engine, tier string) []*Job {
+			j := &Job{Name: "redact", Harness: "H_c18", Lines: map[string]*Template{}, Params: map[string]string{
+				"subcommand": "redact", "symenv": "ATLAS_PUBLIC_KEY,ATLAS_PRIVATE_KEY", "fs.kinds": "absent,file,dir", "createMayFail": "yes"}}
+			j.cutSet = map[string]bool{}
+			for _, c := range cliCut {
+				j.cutSet[c] = true
+			}
+			j.snapshot = cliSnapshot
+			return []*Job{j}
+		},
+		Post:      cliPost,
+		Functions: []string{"main", "main$1", "SetRedactedString", "SetRedactNumbers", "SetRedactBooleans", "SetRedactIPs", "SetEagerRedactionPaths", "SetRedactNamespaces", "SetRedactedFieldsRegexp", "FileExists", "GenerateKey", "WriteKeyToFile", "ReadKeyFromFile", "GetStartAndEndDates", "NewAtlasClient"},
+		Bounds: map[string]any{
+			"flags":       "all 16 flag variables of `redact` hold arbitrary values (not only present/absent); 0 or 1 positional argument (cobra's MaximumNArgs(1) is trusted); stdin piped or not; ATLAS_PUBLIC_KEY / ATLAS_PRIVATE_KEY arbitrary; --redactFieldNames given 0 or 1 times",
+			"loops":       "none (the validation chain is loop-free); processing calls (ProcessMongoLogFile*, DownloadClusterLogs, countLines) are cut into events",
+			"file_system": "key path and output path: absent / file / directory; os.Create may fail",
+			"rule":        "acceptance rule written from the property text (engine/props_cli.go cliRule); combinations the documentation does not settle (--encrypt with Atlas mode) are in neither set",
+		},
+		Assumptions: []string{"cobra / pflag deliver the parsed values into the bound variables and enforce the Args validator; --redactFieldsRegexp compiles (an invalid regexp panics at start-up: outside this check)"},
+		Trusted:     append(append([]string{}, commonTrusted...), "counterexamples are replayed through the freshly built CLI binary in a scratch directory (exit status, files created, network attempt observed via the error text)"),
+	}
+	streamJobs := func(harness string, tier string, triples [][3]string, params map[string]string) []*Job {
+		byName := map[string]tplSpec{}
+		for _, t := range buildCorpus() {
+			byName[t.Name] = t
+		}
+		for _, t := range oddCorpus("thorough") {
+			byName[t.Name] = t
+		}
+		var jobs []*Job
+		for _, tr := range triples {
+			lines := map[string]*Template{}
+			p := map[string]string{}
+			for k, v := range params {
+				p[k] = v
+			}
+			for i, n := range tr {
+				if n == "" {
+					continue
+				}
+				sp, ok := byName[n]
+				if !ok {
+					panic("no template " + n)
+				}
+				ln := fmt.Sprintf("L%d", i)
+				tpl, err := ParseTemplate(ln, sp.Text)
+				if err != nil {
+					panic(err)
+				}
+				lines[ln] = tpl
+				p["has."+ln] = "yes"
+			}
+			jobs = append(jobs, &Job{Name: strings.Join(tr[:], "|"), Harness: harness, Lines: lines, Params: p})
+		}
+		return jobs
+	}
+	streamTrusted := append(append([]string{}, commonTrusted...),
+		"bufio.Scanner contract (bufio.ScanLines): the input is a list of lines without terminators, '\\r' stripped, a final unterminated line is yielded, a line over the limit ends the scan with ErrTooLong; gzip.NewReader yields the decompressed content or an error",
+		"progress bar: opaque object with arbitrary state (CurrentNum, max) and arbitrary Add result")
+	propChecks["C06"] = &PropCheck{
+		ID: "C06", Title: "A log is processed as an order-preserving, line-local map",
+		Jobs: func(e *Engine, tier string) []*Job {
+			triples := [][3]string{
+				{"find.filter/field/str", "odd:network", "update.updates.u/set/str"},
+				{"odd:other-with-command", "find.filter/in/str", "odd:no-attr"},
+				{"aggregate.match/field/str", "insert.documents/doc2/str", "find.filter/field/date"},
+			}
+			p := map[string]string{"k": "2"}
+			if tier == "thorough" {
+				p["k"] = "3"
+			}
+			return streamJobs("H_c06", tier, triples, p)
+		},
+		Functions: []string{"processMongoLogStream", "ProcessMongoLogFile", "ProcessMongoLogFileFromReader", "addOneToBar", "RedactMongoLog", "MarshalOrdered", "UnmarshalOrdered", "HashName"},
+		Witness:   []string{"emitted"},
+		Bounds: map[string]any{
+			"sequence":  "k lines (quick 2, thorough 3); each position chosen by the solver among: a symbolic template line (command line / other component), blank, whitespace-only, non-JSON text (4 representatives)",
+			"channels":  "processMongoLogStream directly, ProcessMongoLogFile with plain and .gz extension, ProcessMongoLogFileFromReader; progress bar nil or present in arbitrary state",
+			"induction": "the pseudonym side table starts with an arbitrary extra entry and the option globals are shown unchanged after the run, so the per-line result does not depend on history (line-locality for logs of any length)",
+			"outside":   "real gzip / OS pipes and files; CRLF and final-newline handling is bufio.ScanLines' documented behaviour (contract)",
+		},
+		Assumptions: []string{"expected output of a line = what the same line yields through RedactMongoLog+MarshalOrdered on its own (self-composition)"},
+		Trusted:     streamTrusted,
+	}
+	propChecks["C07"] = &PropCheck{
+		ID: "C07", Title: "No line content can crash or abort a run",
+		Jobs: func(e *Engine, tier string) []*Job {
+			var triples [][3]string
+			for _, t := range oddCorpus(tier) {
+				triples = append(triples, [3]string{t.Name, "", "find.filter/field/str"})
+			}
+			if tier != "quick" {
+				for _, t := range corpusFor("quick", nil) {
+					triples = append(triples, [3]string{t.Name, "", "find.filter/field/str"})
+				}
+			}
+			jobs := streamJobs("H_c07", tier, triples, map[string]string{"fix": "ns+ip", "variant": "shape"})
+			return append(jobs, streamJobs("H_c07", tier, [][3]string{{"find.filter/field/str", "", "odd:network"}, {"odd:no-attr", "", "find.filter/field/date"}}, map[string]string{"fix": "ns+ip", "variant": "garbage"})...)
+		},
+		Functions: []string{"processMongoLogStream", "UnmarshalOrdered", "parseValue", "RedactMongoLog", "redactCommand", "redactQueryValues", "redactPipelineStage", "redactArrayValuesWithKey", "redactScalarValue", "getOp", "traverseMapPath", "augmentOp", "MarshalOrdered"},
+		Witness:   []string{"emitted"},
+		Bounds: map[string]any{
+			"line_under_test": "every odd-shape template (nulls, empty/nested arrays, numbers / booleans / null / arrays / documents under $date, $oid, $binary.base64, arbitrary keys of class F colliding with the operator vocabulary), thorough: plus the regular corpus",
+			"neighbours":      "followed by a blank / whitespace / one of 11 malformed lines (non-JSON, legacy text format, truncated object, trailing comma, top-level array / string / number / null / boolean, garbage braces, trailing text) and by an ordinary line that must still be processed",
+			"modes":           "placeholder, field-name (symbolic prefix) and selective mode chosen by the solver; progress bar nil / present",
+			"too_long":        "a line over the scanner limit at position 0..2: explicit error, nothing of it passed through",
+			"outside":         "encrypt mode (see C10), nesting deeper than the templates (stack exhaustion), inputs as bytes (tokenizer behind the Decoder contract)",
+		},
+		Assumptions: []string{"every unchecked type assertion, index, nil dereference reached on a feasible path is an implicit obligation (panic = violation)"},
+		Trusted:     streamTrusted,
+	}
+	propChecks["C08"] = &PropCheck{
+		ID: "C08", Title: "I/O failures are reported, never turned into silent truncation",
+		Jobs: func(e *Engine, tier string) []*Job {
+			triples := [][3]string{{"find.filter/field/str", "odd:network", ""}, {"find.filter/field/date", "odd:no-attr", ""}}
+			return streamJobs("H_c08", tier, triples, map[string]string{"fix": "ns+ip"})
+		},
+		Functions: []string{"processMongoLogStream", "ProcessMongoLogFile", "ProcessMongoLogFileFromReader", "addOneToBar"},
+		Witness:   []string{"emitted"},
+		Bounds: map[string]any{
+			"faults":  "3 object lines; the k-th write fails for k = 1..3 (solver's choice); the read fails after 1..3 lines; bad gzip header; open error; read error inside a gzip stream",
+			"outside": "partial lines produced inside a short write by the OS; Close errors; byte-level gzip corruption (the gzip reader's error reporting is its contract)",
+		},
+		Assumptions: []string{"each Write call carries exactly one whole line (fmt.Fprintln performs one Write)"},
+		Trusted:     streamTrusted,
+	}
 	propChecks["C01"] = &PropCheck{
 		ID:    "C01",
 		Title: "Sensitive literal values never survive redaction (full-redaction mode)",
